@@ -360,3 +360,15 @@ func finalValue(v ssa.Value) ssa.Value {
 	}
 	return v
 }
+
+// lastBlockOf: the block a segment ended in — of the function itself, or of a
+// helper expanded in place when the segment lies entirely inside one.
+func lastBlockOf(p *pathx.Path) *ssa.BasicBlock {
+	if n := len(p.Blocks); n > 0 {
+		return p.Blocks[n-1]
+	}
+	if n := len(p.AllBlocks); n > 0 {
+		return p.AllBlocks[n-1]
+	}
+	return nil
+}
